@@ -84,6 +84,8 @@ def main():
             results[h['name']] = dict(harness=h['name'], verdict='inconclusive', reason='harness does not compile against the current tree:\n' + tu['err'])
             return None
         cfg = {k: v for k, v in h.items() if not k.startswith('_')}
+        kpat = [k['match'] for k in load_known().get('findings', []) if k['property'] == pid and k['harness'] == h['name']]
+        if kpat: cfg['known_patterns'] = kpat
         cf = os.path.join(wd, h['name'] + '.cfg.json'); of = os.path.join(wd, h['name'] + '.result.json')
         json.dump(cfg, open(cf, 'w'))
         budget = h.get('timeout', 900 if tier == 'quick' else 2400)
@@ -144,6 +146,16 @@ def main():
                 samples.append(dict(harness=h['name'], witness=q['name'], schedule=q['sample']['schedule'], inputs=q['sample']['inputs']))
         wrep += r.get('witness_replays', 0)
         for fn, n in r.get('functions', []): funcs[fn] = funcs.get(fn, 0) + n
+        if r.get('known'):
+            # a recorded known finding reproduced (its own solver query); it is listed, not raised
+            kfs = [k for k in known.get('findings', []) if k['property'] == pid and k['harness'] == h['name']]
+            if r.get('known_replay', {}).get('confirmed'):
+                for k in kfs:
+                    if any(re.search(k['match'], m) for m in r['known'].get('violated', [])): known_lines.append('KNOWN-FINDING: property=%s %s' % (pid, k['what']))
+                json.dump(dict(property=pid, harness=h['name'], cfg={k: v2 for k, v2 in h.items() if not k.startswith('_')}, ll=h['_tu'].get('ll'), cex=r['known'], replay=r.get('known_replay')), open(os.path.join(rdir, h['name'] + '.known.json'), 'w'), indent=1)
+                if v in ('pass', 'vacuous'): ent['verdict'] = 'known-finding'; v = 'pass'     # (vacuous: every execution ends in the known defect, so no complete run exists)
+            else:
+                inconc.append('%s: the recorded known finding has a model that did not replay concretely' % h['name']); ent['verdict'] = 'inconclusive'
         if v == 'violation':
             cex = r.get('cex', {}); rp = os.path.join(rdir, h['name'] + '.json')
             json.dump(dict(property=pid, harness=h['name'], cfg={k: v2 for k, v2 in h.items() if not k.startswith('_')}, ll=h['_tu'].get('ll'),
